@@ -344,7 +344,7 @@ func diffKeyMaps(want, got map[gmsl.PublicKeyLookupRequest]gmsl.PublicKeyLookupR
 // cannot make progress any more: it is reported as a deadlock.  (The whole operation takes milliseconds;
 // sizeBound is four orders of magnitude above that.)
 
-const sizeBound = 20 * time.Second
+const sizeBound = 60 * time.Second
 
 type sizesRec struct {
 	N       int `json:"n"`
